@@ -23,7 +23,10 @@ ASSUMPTIONS = ["A-POLL: poll(t) returns 0 only after t ms and not later than t m
 TRUSTED = ["tools/cxx2lean_eff.py stage 3 (DESIGN.md 0.7.2): StepTodos over the abstract deque/task interface Gen.TodoWorld (front()->when, pop_front after move, task->what(), empty() recognised by canonical text + provenance of the locals); Model/GenTodoWorld.lean reads the ToDo model as that interface; string_view = cursor + immutable end",
            "tools/cxx2lean_eff.py (stage 2, DESIGN.md 0.7.1): world boundary (DoPoll, Interrupted, Clock::now, ::send, ::recv, SocketError opaque; handles dropped), C++ evaluation order, pointer = offset, string_view = (offset, length), objects = fields; Model/GenWorld.lean reads the model answers as C results",
            "tools/cxx2lean.py (source-derived tie, DESIGN.md 0.7): clang-14 JSON AST, chrono unit semantics read from the desugared types, unbounded Int for signed arithmetic (overflow = UB), abstract memcmp / container queries",
-           "vos shim (virtual clock: a poll with nothing ready advances the clock by its timeout)"]
+           "vos shim (virtual clock: a poll with nothing ready advances the clock by its timeout)",
+           "the transcript parsers of Drive/C01.lean (lines -> Spec.C01.Obs) and Drive/C06.lean (lines -> Spec.C07.Step.Obs); the predicates "
+           "themselves are Spec/C07.lean and are no longer trusted to be consistent with the model: spec_holds_on_model / "
+           "spec_holds_on_model_step prove that they accept every trace of the model. The timeout clauses of the TLS slice stay inside Drive/C18.lean"]
 ALL_TAGS = ["recv.none", "recv.value", "recv.unl", "recv.zero", "recv.lim", "send.all", "send.try", "send.some", "sendto", "recvfrom",
             "listen", "step.unlimited", "step.zero", "step.limited", "wait.todo", "wait.full"]
 EXHAUSTIVE = {"quick": True, "thorough": True}
@@ -81,14 +84,22 @@ def gen(rng, tier):
     return cases
 
 
-TECHNIQUE = "Lean 4 theorems about wait/receive/SendSome/StepTodos timeouts (all scripts, all T) + exhaustive timeout grid replayed on the real code under a virtual clock"
+TECHNIQUE = ("Lean 4 theorems about wait/receive/SendSome/StepTodos timeouts (all scripts, all T) + exhaustive timeout grid replayed on the real code under a virtual clock; "
+             "the run-time predicates are their own Lean module (Spec/C07.lean) proved to accept every trace of the model (virtual clock followed through every poll; "
+             "simulation relation with the reference scheduler for Step)")
 LEVEL_TEXT = ("Machine-checked theorems: T<0 never yields 'nothing' and only issues unlimited polls; T=0 issues only zero polls and lets no "
               "time pass; T>0: every poll argument is within the remaining budget, total blocking <= T however many polls/partial sends, "
               "'nothing' exactly at start+T (receive, SendSome); Driver::Step: wait within [0,T] for T>=0 whatever the tasks do (step_bounded), full wait when idle, never a negative (unlimited) or "
               "over-long wait while a ToDo is pending - for every due time thanks to the F6 clamp, refuted for the shipped narrowing by "
               "witness. Tied to /repo by enumerating the complete operation x timeout x arrival grid and the Step constellations on the "
               "real code under a link-time virtual clock, comparing every poll argument, virtual time and result with the model and with "
-              "the documented semantics.")
+              "the documented semantics. The run-time predicates are typed, total Lean functions of their own module (Spec/C07.lean: for the blocking "
+              "socket operations specStepM/specTimeouts over Spec.C01.Obs - poll arguments against the observed elapsed time; for Driver::Step "
+              "Step.specStep over begin/ran/poll/end items with the reference scheduler of Spec/C06.lean) and theorems of the model: "
+              "spec_holds_on_model (= Spec.C07.model_satisfies_spec: every history of Send/Receive/SendTo/ReceiveFrom/Listen with arbitrary poll/send "
+              "scripts, T < 2^31, the kernel never answers an unlimited poll with 0) and spec_holds_on_model_step (= Step.model_satisfies_spec: every "
+              "history of construct/Shift/Cancel/drop/clock/Step with arbitrary task bodies, T < 2^31, fuel >= 1) prove that they accept every trace "
+              "the model can produce, so a spec verdict on the implementation is provably a difference between implementation and model.")
 LEVEL_NOTE = ("Trusted: Lean kernel; axioms propext/Quot.sound/Classical.choice; model validated on the grid; vos shim. Real elapsed "
               "time is the kernel's business (A-POLL). The TLS socket's waits are checked on the implementation (budget clauses of the C18 spec, "
               "correspondence with the glue model) but the budget theorems above are about the plain loops; for the TLS glue the "
